@@ -398,42 +398,85 @@ func ruleLEX1(c *Ctx) {
 	if _, fd := p.FuncDecl("internal/ast", "LexerTermLiteral.NFACons"); fd != nil {
 		okLit := false
 		ast.Inspect(fd.Body, func(n ast.Node) bool {
-			fs, ok := n.(*ast.ForStmt)
-			if !ok {
+			var body []ast.Stmt
+			var runeVar types.Object
+			switch x := n.(type) {
+			case *ast.ForStmt:
+				body = x.Body.List
+			case *ast.RangeStmt:
+				// ranging over a string yields its runes, decoded as DecodeRuneInString does
+				if t := info.TypeOf(x.X); t != nil && isString(t) && x.Value != nil {
+					body = x.Body.List
+					runeVar = usesObj(info, x.Value)
+				}
+			}
+			if body == nil {
 				return true
 			}
-			var runeVar types.Object
 			var edge *ast.CallExpr
+			var cur ast.Expr // the state the edge leaves from
 			advance := false
-			for _, s := range fs.Body.List {
+			for _, s := range body {
 				switch x := s.(type) {
 				case *ast.AssignStmt:
 					if call, ok := x.Rhs[0].(*ast.CallExpr); ok && fullName(calleeFunc(info, call)) == "unicode/utf8.DecodeRuneInString" {
 						runeVar = usesObj(info, x.Lhs[0])
 					}
-					if edge != nil && len(x.Lhs) == 1 && isField(info, x.Lhs[0], "lexergen/mode", "NFAComposite", "E") && sameExpr(x.Rhs[0], edge.Args[0]) {
+					if edge != nil && len(x.Lhs) == 1 && len(x.Rhs) == 1 && sameExpr(x.Lhs[0], cur) && sameExpr(x.Rhs[0], edge.Args[0]) {
 						advance = true
 					}
 				case *ast.ExprStmt:
 					if call, ok := x.X.(*ast.CallExpr); ok {
-						if f := calleeFunc(info, call); f != nil && f.Name() == "AddTransition" {
+						if f := calleeFunc(info, call); f != nil && f.Name() == "AddTransition" && len(call.Args) == 2 {
 							edge = call
+							cur = call.Fun.(*ast.SelectorExpr).X
 						}
 					}
 				}
 			}
-			if edge != nil && runeVar != nil && advance {
-				if cl, ok := edge.Args[1].(*ast.CompositeLit); ok && typeIs(info.TypeOf(cl), "lexergen/rang3", "Range") && len(cl.Elts) == 2 {
-					both := true
-					for _, el := range cl.Elts {
-						if kv, ok := el.(*ast.KeyValueExpr); !ok || usesObj(info, kv.Value) != runeVar {
-							both = false
-						}
-					}
-					sel := edge.Fun.(*ast.SelectorExpr)
-					okLit = both && isField(info, sel.X, "lexergen/mode", "NFAComposite", "E")
+			if edge == nil || runeVar == nil || !advance {
+				return true
+			}
+			cl, ok := edge.Args[1].(*ast.CompositeLit)
+			if !ok || !typeIs(info.TypeOf(cl), "lexergen/rang3", "Range") || len(cl.Elts) != 2 {
+				return true
+			}
+			for _, el := range cl.Elts {
+				if kv, ok := el.(*ast.KeyValueExpr); !ok || usesObj(info, kv.Value) != runeVar {
+					return true
 				}
 			}
+			// the advancing state is the composite's end: either its E field directly, or a
+			// local that starts as the begin state and is returned as E
+			if isField(info, cur, "lexergen/mode", "NFAComposite", "E") {
+				okLit = true
+				return true
+			}
+			curObj := usesObj(info, cur)
+			ast.Inspect(fd.Body, func(m ast.Node) bool {
+				rs, ok := m.(*ast.ReturnStmt)
+				if !ok || len(rs.Results) != 1 {
+					return true
+				}
+				rcl := compositeOf(rs.Results[0])
+				if rcl == nil {
+					return true
+				}
+				bE, eE := kvOf(rcl, "B"), kvOf(rcl, "E")
+				if bE == nil || eE == nil || curObj == nil || usesObj(info, eE) != curObj {
+					return true
+				}
+				// cur := <B's variable> before the loop
+				ast.Inspect(fd.Body, func(k ast.Node) bool {
+					if as, ok := k.(*ast.AssignStmt); ok && as.Tok == token.DEFINE && len(as.Lhs) == 1 && len(as.Rhs) == 1 && usesObj(info, as.Lhs[0]) == curObj && as.End() <= n.Pos() {
+						if bo := usesObj(info, bE); bo != nil && usesObj(info, as.Rhs[0]) == bo {
+							okLit = true
+						}
+					}
+					return true
+				})
+				return true
+			})
 			return true
 		})
 		c.check(okLit, rule, "ast.LexerTermLiteral.NFACons/chain", p.Pos(fd.Pos()), "literal: a chain with one Range{r,r} edge per decoded rune, the end state advancing with it",
@@ -773,14 +816,21 @@ func ruleLEX4(c *Ctx) {
 				return true
 			}
 			if cl, ok := call.Args[0].(*ast.CompositeLit); ok && len(cl.Elts) == 1 {
-				if inner, ok := cl.Elts[0].(*ast.CompositeLit); ok && len(inner.Elts) == 2 {
+				innerE := ast.Unparen(cl.Elts[0])
+				if id, isId := innerE.(*ast.Ident); isId {
+					// a package-level variable holding the literal, never written again
+					if def := pkgVarInit(p, pk2, usesObj(info, id)); def != nil {
+						innerE = ast.Unparen(def)
+					}
+				}
+				if inner, ok := innerE.(*ast.CompositeLit); ok && len(inner.Elts) == 2 {
 					b, e := kvOf(inner, "B"), kvOf(inner, "E")
 					if b == nil || e == nil {
 						b, e = inner.Elts[0], inner.Elts[1]
 					}
 					bv, bok := constInt(info, b)
 					ev, eok := constInt(info, e)
-					if bok && eok && bv == 0 && ev == 0x10FFFF && strings.Contains(exprString(e), "MaxRune") {
+					if bok && eok && bv == 0 && ev == 0x10FFFF {
 						okNeg = true
 					}
 				}
@@ -976,72 +1026,307 @@ func ruleLEX6(c *Ctx) {
 		return
 	}
 	info := pk.TypesInfo
-	// initial partition by Accept
+	// initial partition by Accept: the group a state is added to is one constant when it accepts
+	// and a different constant when it does not (if/else with two Add calls, or one Add of a
+	// variable set under the Accept test)
 	okInit := false
-	ast.Inspect(fd.Body, func(n ast.Node) bool {
-		if ifs, ok := n.(*ast.IfStmt); ok && isField(info, ifs.Cond, "lexergen/dfa", "State", "Accept") && ifs.Else != nil {
-			a := findCalls(info, ifs.Body, false, func(fn *types.Func, _ *ast.CallExpr) bool { return fn != nil && fn.Name() == "Add" })
-			b := findCalls(info, ifs.Else, false, func(fn *types.Func, _ *ast.CallExpr) bool { return fn != nil && fn.Name() == "Add" })
-			if len(a) == 1 && len(b) == 1 && len(a[0].Args) == 2 && len(b[0].Args) == 2 && exprString(a[0].Args[1]) != exprString(b[0].Args[1]) {
-				okInit = true
+	fdPar := parents(fd)
+	addCalls := findCalls(info, fd.Body, true, func(fn *types.Func, call *ast.CallExpr) bool {
+		return fn != nil && fn.Name() == "Add" && strings.HasSuffix(fullName(fn), ".partitions.Add") && len(call.Args) == 2
+	})
+	acceptFact := func(n ast.Node) (known bool, accepting bool) {
+		for _, f := range pathConds(info, fdPar, n) {
+			if isField(info, f.e, "lexergen/dfa", "State", "Accept") {
+				return true, !f.neg
 			}
 		}
-		return true
-	})
+		return false, false
+	}
+	groupsByAccept := map[bool]map[int64]bool{true: {}, false: {}}
+	for _, call := range addCalls {
+		if v, isC := constInt(info, call.Args[1]); isC {
+			if known, acc := acceptFact(call); known {
+				groupsByAccept[acc][v] = true
+			}
+			continue
+		}
+		// a variable: its constant assignments, classified by the Accept fact at each
+		if gv := usesObj(info, call.Args[1]); gv != nil {
+			var unconditional []int64
+			ast.Inspect(fd.Body, func(n ast.Node) bool {
+				as, ok := n.(*ast.AssignStmt)
+				if !ok || len(as.Lhs) != 1 || len(as.Rhs) != 1 || usesObj(info, as.Lhs[0]) != gv || as.Pos() > call.Pos() {
+					return true
+				}
+				v, isC := constInt(info, as.Rhs[0])
+				if !isC {
+					return true
+				}
+				if known, acc := acceptFact(as); known {
+					groupsByAccept[acc][v] = true
+				} else {
+					unconditional = append(unconditional, v)
+				}
+				return true
+			})
+			// the default value stands for the outcome no conditional assignment covers
+			for _, v := range unconditional {
+				for _, acc := range []bool{true, false} {
+					if len(groupsByAccept[acc]) == 0 {
+						groupsByAccept[acc][v] = true
+					}
+				}
+			}
+		}
+	}
+	if len(groupsByAccept[true]) == 1 && len(groupsByAccept[false]) == 1 {
+		for a := range groupsByAccept[true] {
+			for b := range groupsByAccept[false] {
+				okInit = a != b
+			}
+		}
+	}
 	c.check(okInit, rule, "dfa.optimize/initial-partition", p.Pos(fd.Pos()), "accepting and non-accepting states start in different groups", "the initial partition does not separate accepting from non-accepting states")
-	// refinement until stable
+	// refinement until stable: a loop around the subPartition calls whose exit test compares the
+	// number of groups before the pass with the number after it
 	okFix := false
+	fdDefs := localDefs(info, fd)
+	isCountCall := func(e ast.Expr) bool {
+		call, ok := ast.Unparen(e).(*ast.CallExpr)
+		if !ok {
+			return false
+		}
+		fn := calleeFunc(info, call)
+		return fn != nil && fn.Name() == "Count" && strings.HasSuffix(fullName(fn), ".partitions.Count")
+	}
 	ast.Inspect(fd.Body, func(n ast.Node) bool {
-		if fs, ok := n.(*ast.ForStmt); ok && fs.Cond != nil {
-			if be, ok := fs.Cond.(*ast.BinaryExpr); ok && be.Op == token.NEQ && strings.HasSuffix(exprString(be.Y), ".Count()") {
-				if len(findCalls(info, fs.Body, false, func(fn *types.Func, _ *ast.CallExpr) bool { return fn != nil && fn.Name() == "subPartition" })) == 1 {
+		fs, ok := n.(*ast.ForStmt)
+		if !ok {
+			return true
+		}
+		subs := findCalls(info, fs.Body, false, func(fn *types.Func, _ *ast.CallExpr) bool { return fn != nil && fn.Name() == "subPartition" })
+		if len(subs) != 1 {
+			return true
+		}
+		// candidate exit tests: the loop condition, or `if c { break }` at the end of the body
+		type exit struct {
+			e        ast.Expr
+			stayWhen token.Token // operator under which the loop continues
+		}
+		var exits []exit
+		if fs.Cond != nil {
+			if be, ok := ast.Unparen(fs.Cond).(*ast.BinaryExpr); ok {
+				exits = append(exits, exit{be, token.NEQ})
+			}
+		}
+		for _, st := range fs.Body.List {
+			if ifs, ok := st.(*ast.IfStmt); ok && ifs.Else == nil && len(ifs.Body.List) == 1 && st.Pos() > subs[0].End() {
+				if br, ok := ifs.Body.List[0].(*ast.BranchStmt); ok && br.Tok == token.BREAK {
+					if be, ok := ast.Unparen(ifs.Cond).(*ast.BinaryExpr); ok {
+						exits = append(exits, exit{be, token.EQL}) // breaks when equal = continues when different
+					}
+				}
+			}
+		}
+		for _, ex := range exits {
+			be := ex.e.(*ast.BinaryExpr)
+			want := token.NEQ
+			if ex.stayWhen == token.EQL {
+				want = token.EQL
+			}
+			if be.Op != want {
+				continue
+			}
+			for _, pr := range [][2]ast.Expr{{be.X, be.Y}, {be.Y, be.X}} {
+				if !isCountCall(pr[1]) {
+					continue
+				}
+				// the other side: a variable holding Count() taken before the pass
+				o := usesObj(info, pr[0])
+				if o == nil {
+					continue
+				}
+				before := false
+				ast.Inspect(fs.Body, func(m ast.Node) bool {
+					if as, ok := m.(*ast.AssignStmt); ok && len(as.Lhs) == 1 && len(as.Rhs) == 1 && usesObj(info, as.Lhs[0]) == o && isCountCall(as.Rhs[0]) && as.End() <= subs[0].Pos() {
+						before = true
+					}
+					return true
+				})
+				if before {
 					okFix = true
 				}
 			}
 		}
 		return true
 	})
+	_ = fdDefs
 	c.check(okFix, rule, "dfa.optimize/until-stable", p.Pos(fd.Pos()), "groups are split until their number no longer changes", "refinement is not repeated until the number of groups is stable")
-	// subPartition: transition-group difference and accepting-NFA-state difference both move the state
-	okTrans, okAcc := false, false
-	ast.Inspect(sp.Body, func(n ast.Node) bool {
-		ifs, ok := n.(*ast.IfStmt)
-		if !ok {
-			return true
+	// subPartition: transition-group difference and accepting-NFA-state difference both move the state.
+	// Roles are found by what the objects do, not by their names:
+	//   moveSet  = the local whose iteration feeds partitions.Move
+	//   groupSet = a local defined from partitions.GetGroup
+	//   inputSet = the local iterated around the transition comparison
+	par := parents(sp)
+	defs := localDefs(info, sp)
+	rootVar := func(e ast.Expr) types.Object {
+		for {
+			switch x := ast.Unparen(e).(type) {
+			case *ast.SelectorExpr:
+				if _, isVar := info.Uses[x.Sel].(*types.Var); isVar && info.Selections[x] != nil {
+					e = x.X
+					continue
+				}
+				return nil
+			case *ast.StarExpr:
+				e = x.X
+				continue
+			case *ast.UnaryExpr:
+				e = x.X
+				continue
+			case *ast.Ident:
+				return usesObj(info, x)
+			}
+			return nil
 		}
-		moves := len(findCalls(info, ifs.Body, false, func(fn *types.Func, call *ast.CallExpr) bool {
-			sel, ok := call.Fun.(*ast.SelectorExpr)
-			return ok && sel.Sel.Name == "Add" && exprString(sel.X) == "move"
-		})) > 0
-		if !moves {
-			return true
-		}
-		cs := exprString(ifs.Cond)
-		if be, ok := ifs.Cond.(*ast.BinaryExpr); ok && be.Op == token.NEQ {
-			l, r := resolveLocalFn(info, sp, be.X), resolveLocalFn(info, sp, be.Y)
-			if strings.HasPrefix(exprString(l), "transitionGroup(") && strings.HasPrefix(exprString(r), "transitionGroup(") {
-				okTrans = true
+	}
+	// iteratedBy returns the objects whose iteration (X.ForEach(func…) or range X) encloses n.
+	iteratedBy := func(n ast.Node) []ast.Expr {
+		var out []ast.Expr
+		for m := par[n]; m != nil; m = par[m] {
+			switch x := m.(type) {
+			case *ast.RangeStmt:
+				out = append(out, x.X)
+			case *ast.FuncLit:
+				if call, ok := par[x].(*ast.CallExpr); ok {
+					if sel, ok := call.Fun.(*ast.SelectorExpr); ok && len(call.Args) >= 1 && call.Args[len(call.Args)-1] == ast.Expr(x) {
+						out = append(out, sel.X)
+					}
+				}
 			}
 		}
-		if strings.Contains(cs, "acceptingNFAStates(") && strings.Contains(cs, ".Equal(") && strings.HasPrefix(cs, "!") {
-			okAcc = true
+		return out
+	}
+	var moveSet types.Object
+	for _, call := range findCalls(info, sp, true, func(fn *types.Func, _ *ast.CallExpr) bool {
+		return fn != nil && fn.Name() == "Move" && strings.HasSuffix(fullName(fn), ".partitions.Move")
+	}) {
+		for _, it := range iteratedBy(call) {
+			if o := rootVar(it); o != nil {
+				moveSet = o
+			}
+		}
+	}
+	addsTo := func(n ast.Node, set types.Object) bool {
+		return set != nil && len(findCalls(info, n, false, func(fn *types.Func, call *ast.CallExpr) bool {
+			sel, ok := call.Fun.(*ast.SelectorExpr)
+			return ok && sel.Sel.Name == "Add" && rootVar(sel.X) == set
+		})) > 0
+	}
+	// calleeBody: the body of the function or local closure a call invokes.
+	calleeBody := func(call *ast.CallExpr) (key any, body ast.Node) {
+		if fn := calleeFunc(info, call); fn != nil {
+			if d := p.funcDecls[fn.Origin()]; d != nil {
+				return fn, d
+			}
+			return fn, nil
+		}
+		if id, ok := ast.Unparen(call.Fun).(*ast.Ident); ok {
+			if o := usesObj(info, id); o != nil {
+				if lit, ok := ast.Unparen(defs[o]).(*ast.FuncLit); ok {
+					return o, lit
+				}
+			}
+		}
+		return nil, nil
+	}
+	sameCallee := func(x, y ast.Expr) ast.Node {
+		cx, ok1 := ast.Unparen(resolveVia(info, defs, x)).(*ast.CallExpr)
+		cy, ok2 := ast.Unparen(resolveVia(info, defs, y)).(*ast.CallExpr)
+		if !ok1 || !ok2 {
+			return nil
+		}
+		kx, bx := calleeBody(cx)
+		ky, _ := calleeBody(cy)
+		if kx == nil || kx != ky || bx == nil {
+			return nil
+		}
+		// the two calls must be about different states
+		if len(cx.Args) == 0 || len(cy.Args) == 0 || sameExpr(cx.Args[0], cy.Args[0]) {
+			return nil
+		}
+		return bx
+	}
+	okTrans, okAcc := false, false
+	var inputSet types.Object
+	ast.Inspect(sp.Body, func(n ast.Node) bool {
+		ifs, ok := n.(*ast.IfStmt)
+		if !ok || !addsTo(ifs.Body, moveSet) {
+			return true
+		}
+		cond := ast.Unparen(ifs.Cond)
+		if be, ok := cond.(*ast.BinaryExpr); ok && be.Op == token.NEQ {
+			if body := sameCallee(be.X, be.Y); body != nil {
+				if len(findCalls(info, body, true, func(fn *types.Func, _ *ast.CallExpr) bool {
+					return fn != nil && fn.Name() == "GetStateGroup"
+				})) > 0 {
+					okTrans = true
+					for _, it := range iteratedBy(ifs) {
+						if o := rootVar(it); o != nil && inputSet == nil {
+							inputSet = o
+						}
+					}
+				}
+			}
+		}
+		if u, ok := cond.(*ast.UnaryExpr); ok && u.Op == token.NOT {
+			if call, ok := ast.Unparen(u.X).(*ast.CallExpr); ok && len(call.Args) == 1 {
+				if sel, ok := call.Fun.(*ast.SelectorExpr); ok && sel.Sel.Name == "Equal" {
+					if body := sameCallee(sel.X, call.Args[0]); body != nil {
+						readsAccept := false
+						ast.Inspect(body, func(m ast.Node) bool {
+							if isFieldNode(info, m, "lexergen/nfa", "State", "Accept") {
+								readsAccept = true
+							}
+							return true
+						})
+						if readsAccept {
+							okAcc = true
+						}
+					}
+				}
+			}
 		}
 		return true
 	})
 	c.check(okTrans, rule, "dfa.subPartition/transition-difference", p.Pos(sp.Pos()), "a state whose transition on some input leads to another group than the representative's is split off", "states with transitions into different groups are not split")
 	c.check(okAcc, rule, "dfa.subPartition/accepting-rule-difference", p.Pos(sp.Pos()), "accepting states whose accepting NFA states differ (different rules) are split off", "accepting states of different rules can be merged: the wrong rule's actions would run")
-	// inputs cover both states
+	// inputs cover both states: the set iterated around the comparison is filled from the
+	// transitions of every state of the group.
 	okInputs := false
 	ast.Inspect(sp.Body, func(n ast.Node) bool {
-		if call, ok := n.(*ast.CallExpr); ok {
-			if sel, ok := call.Fun.(*ast.SelectorExpr); ok && sel.Sel.Name == "ForEach" && exprString(sel.X) == "states" {
-				if len(findCalls(info, call, true, func(fn *types.Func, c2 *ast.CallExpr) bool {
-					s2, ok := c2.Fun.(*ast.SelectorExpr)
-					return ok && s2.Sel.Name == "Add" && exprString(s2.X) == "inputs"
-				})) > 0 {
-					okInputs = true
+		call, ok := n.(*ast.CallExpr)
+		if !ok {
+			return true
+		}
+		sel, ok := call.Fun.(*ast.SelectorExpr)
+		if !ok || sel.Sel.Name != "Add" || inputSet == nil || rootVar(sel.X) != inputSet {
+			return true
+		}
+		overTrans, overGroup := false, false
+		for _, it := range iteratedBy(call) {
+			if isField(info, it, "lexergen/dfa", "State", "Transitions") {
+				overTrans = true
+				continue
+			}
+			if gc, ok := ast.Unparen(resolveVia(info, defs, it)).(*ast.CallExpr); ok {
+				if fn := calleeFunc(info, gc); fn != nil && fn.Name() == "GetGroup" {
+					overGroup = true
 				}
 			}
+		}
+		if overTrans && overGroup {
+			okInputs = true
 		}
 		return true
 	})
@@ -1324,4 +1609,218 @@ func isMaxFunc(p *Program, pk *packages.Package, scope ast.Node, call *ast.CallE
 		return ((l == a && r == b) || (l == b && r == a)) && thenRet == r && elseRet == l
 	}
 	return false
+}
+
+// ---- LEX-9: the minimised DFA is wired before it is renumbered ----
+//
+// optimize builds one new state per group in a slice indexed by GROUP NUMBER, wires the
+// transitions through that indexing, and only then moves the start group to index 0 and
+// renumbers. Every read of the slice by group number must therefore precede the permutation, and
+// the renumbering (ID = index) must follow it.
+func ruleLEX9(c *Ctx) {
+	const rule = "LEX-9"
+	p := c.Prog
+	pk, fd := p.FuncDecl("internal/lexergen/dfa", "optimize")
+	if fd == nil {
+		c.unres(rule, "dfa.optimize", "", "function not found")
+		return
+	}
+	info := pk.TypesInfo
+	// the slice that becomes d.States
+	var ns types.Object
+	var install ast.Stmt
+	for _, st := range fd.Body.List {
+		if as, ok := st.(*ast.AssignStmt); ok && len(as.Lhs) == 1 && isField(info, as.Lhs[0], "lexergen/dfa", "DFA", "States") {
+			if o := usesObj(info, as.Rhs[0]); o != nil {
+				ns, install = o, st
+			}
+		}
+	}
+	if ns == nil {
+		c.unres(rule, "dfa.optimize/new-states", p.Pos(fd.Pos()), "the slice installed as d.States was not found")
+		return
+	}
+	topIndex := func(n ast.Node) int {
+		for i, st := range fd.Body.List {
+			if containsNode(st, n) {
+				return i
+			}
+		}
+		return -1
+	}
+	par := parents(fd)
+	isNS := func(e ast.Expr) bool {
+		id, ok := ast.Unparen(e).(*ast.Ident)
+		return ok && usesObj(info, id) == ns
+	}
+	mentionsNS := func(n ast.Node) bool {
+		found := false
+		ast.Inspect(n, func(m ast.Node) bool {
+			if e, ok := m.(ast.Expr); ok && isNS(e) {
+				found = true
+			}
+			return true
+		})
+		return found
+	}
+	// permutations: whole-element writes whose right-hand side reads the slice again
+	var perms []*ast.AssignStmt
+	// renumbering: NS[i].ID = f(i) inside a loop over NS
+	var renum []*ast.AssignStmt
+	type read struct {
+		ix  *ast.IndexExpr
+		top int
+	}
+	var reads []read
+	ast.Inspect(fd.Body, func(n ast.Node) bool {
+		switch x := n.(type) {
+		case *ast.AssignStmt:
+			for _, l := range x.Lhs {
+				if ix, ok := ast.Unparen(l).(*ast.IndexExpr); ok && isNS(ix.X) {
+					rhsReads := false
+					for _, r := range x.Rhs {
+						if mentionsNS(r) {
+							rhsReads = true
+						}
+					}
+					if rhsReads && (len(perms) == 0 || perms[len(perms)-1] != x) {
+						perms = append(perms, x)
+					}
+				}
+				if isField(info, l, "lexergen/dfa", "State", "ID") {
+					if sel, ok := ast.Unparen(l).(*ast.SelectorExpr); ok {
+						if ix, ok := ast.Unparen(sel.X).(*ast.IndexExpr); ok && isNS(ix.X) {
+							renum = append(renum, x)
+						}
+						// `for i, s := range NS { s.ID = conv(i) }`
+						for q := par[ast.Node(x)]; q != nil; q = par[q] {
+							if rs, ok := q.(*ast.RangeStmt); ok && isNS(rs.X) && rs.Key != nil && rs.Value != nil &&
+								usesObj(info, sel.X) == usesObj(info, rs.Value) && usesObj(info, stripConv(info, x.Rhs[0])) == usesObj(info, rs.Key) {
+								renum = append(renum, x)
+							}
+						}
+					}
+				}
+			}
+		case *ast.IndexExpr:
+			if !isNS(x.X) {
+				return true
+			}
+			// skip the element being written as a whole and the permutation itself
+			for q := par[x]; q != nil; q = par[q] {
+				if as, ok := q.(*ast.AssignStmt); ok {
+					for _, pm := range perms {
+						if pm == as {
+							return true
+						}
+					}
+					for _, l := range as.Lhs {
+						if ast.Unparen(l) == ast.Expr(x) {
+							return true
+						}
+					}
+					break
+				}
+			}
+			reads = append(reads, read{x, topIndex(x)})
+		}
+		return true
+	})
+	if len(perms) == 0 {
+		// no permutation at all: then the start group must already be group 0; not the shape of
+		// this code base
+		c.unres(rule, "dfa.optimize/start-first", p.Pos(fd.Pos()), "no statement moves the start group to index 0")
+		return
+	}
+	isRenumRead := func(ix *ast.IndexExpr) bool {
+		for _, r := range renum {
+			if containsNode(r, ix) {
+				return true
+			}
+		}
+		return false
+	}
+	for _, pm := range perms {
+		pt := topIndex(pm)
+		var late []string
+		n := 0
+		for _, r := range reads {
+			if isRenumRead(r.ix) {
+				continue
+			}
+			n++
+			if r.top >= pt {
+				late = append(late, p.Pos(r.ix.Pos())+" `"+exprString(r.ix)+"`")
+			}
+		}
+		if len(late) > 0 {
+			c.bad(rule, "dfa.optimize/wire-before-permute", p.Pos(pm.Pos()), "the new states are permuted at %s, but the slice is still read by group number afterwards (%s): the groups whose slots were exchanged get each other's transitions", p.Pos(pm.Pos()), strings.Join(late, ", "))
+		} else {
+			c.ok(rule, "dfa.optimize/wire-before-permute", p.Pos(pm.Pos()), "all %d reads of the new-state slice by group number precede the statement that moves the start group to index 0", n)
+		}
+		okRenum := len(renum) > 0
+		for _, r := range renum {
+			if topIndex(r) <= pt || topIndex(r) >= topIndex(install) {
+				okRenum = false
+			}
+		}
+		c.check(okRenum, rule, "dfa.optimize/renumber-after-permute", p.Pos(pm.Pos()), "state IDs are assigned from the final positions, after the permutation and before the slice is installed", "state IDs are not (re)assigned from the final positions after the permutation: ID and index disagree, and the tables are indexed by ID")
+	}
+}
+
+// pkgVarInit returns the initialiser of a package-level variable that is never assigned, has no
+// field or element stored into, and whose address is never taken, anywhere in its package.
+func pkgVarInit(p *Program, pk *packages.Package, o types.Object) ast.Expr {
+	v, ok := o.(*types.Var)
+	if !ok || v.Parent() != pk.Types.Scope() {
+		return nil
+	}
+	info := pk.TypesInfo
+	var init ast.Expr
+	mutated := false
+	for _, f := range pk.Syntax {
+		ast.Inspect(f, func(n ast.Node) bool {
+			switch x := n.(type) {
+			case *ast.ValueSpec:
+				for i, nm := range x.Names {
+					if info.Defs[nm] == o && i < len(x.Values) {
+						init = x.Values[i]
+					}
+				}
+			case *ast.AssignStmt:
+				for _, l := range x.Lhs {
+					root := ast.Unparen(l)
+					for {
+						switch y := root.(type) {
+						case *ast.SelectorExpr:
+							if info.Selections[y] != nil {
+								root = ast.Unparen(y.X)
+								continue
+							}
+						case *ast.IndexExpr:
+							root = ast.Unparen(y.X)
+							continue
+						}
+						break
+					}
+					if usesObj(info, root) == o {
+						mutated = true
+					}
+				}
+			case *ast.UnaryExpr:
+				if x.Op == token.AND && usesObj(info, x.X) == o {
+					mutated = true
+				}
+			case *ast.IncDecStmt:
+				if usesObj(info, x.X) == o {
+					mutated = true
+				}
+			}
+			return true
+		})
+	}
+	if mutated {
+		return nil
+	}
+	return init
 }
